@@ -16,6 +16,10 @@
 (*                                 one operation applied atomically;       *)
 (*                                 ctx = [tags, nother, t]                 *)
 (*    AbsFinal(abs)                predicate required at "quiescent"       *)
+(*    AbsEv(abs, t, op, a, b)      set of abstract states after an "ev"    *)
+(*                                 record (monitor events emitted by the   *)
+(*                                 harness inside operations); the empty   *)
+(*                                 set rejects the trace; NoEv ignores them *)
 (* (bound in the cfg file with  CONSTANT AbsStep <- XStep ...).            *)
 (*                                                                         *)
 (* ctx.tags is the set of tags emitted by operations of OTHER threads that *)
@@ -27,7 +31,9 @@
 (***************************************************************************)
 EXTENDS Integers, Sequences, FiniteSets, TLC, Json, IOUtils
 
-CONSTANTS AbsInit, AbsCfg(_, _, _, _), AbsStep(_, _, _, _, _), AbsFinal(_)
+CONSTANTS AbsInit, AbsCfg(_, _, _, _), AbsStep(_, _, _, _, _), AbsFinal(_), AbsEv(_, _, _, _, _)
+
+NoEv(s, t, op, a, b) == {s}
 
 H == ndJsonDeserialize(IOEnv.TRACE)
 N == Len(H)
@@ -92,13 +98,18 @@ Quiescent == /\ l \in 1..N /\ E.e = "quiescent" /\ Open(pend) = {}
              /\ AbsFinal(abs)
              /\ l' = l + 1 /\ UNCHANGED <<abs, pend, ex>>
 
+\* monitor events emitted inside operations
+Ev == /\ l \in 1..N /\ E.e = "ev"
+      /\ \E s \in AbsEv(abs, E.t, E.op, E.a, E.b) : abs' = s
+      /\ l' = l + 1 /\ UNCHANGED <<pend, ex>>
+
 \* records that carry no obligation at this level
 Skip == /\ l \in 1..N /\ E.e \in {"choice", "note"}
         /\ l' = l + 1 /\ UNCHANGED <<abs, pend, ex>>
 
 \* "outcome" (crash, hang, deadlock, steplimit), "uaf", "dfree" records have no action: the trace is rejected there.
 
-Next == Call \/ Ret \/ Cfg \/ Accept \/ Quiescent \/ Skip \/ \E t \in Threads : Lin(t)
+Next == Call \/ Ret \/ Cfg \/ Ev \/ Accept \/ Quiescent \/ Skip \/ \E t \in Threads : Lin(t)
 Spec == Init /\ [][Next]_vars
 
 \* furthest record reached (needs -workers 1), reported for diagnosis of a rejected execution
